@@ -906,4 +906,716 @@ theorem contract_cash_one (p : ContractP) (g : Grid) (hg : g.Ok) (d : SCData) (l
     simp only [ha, Bool.false_eq_true, false_and, if_false, hz]
     grind
 
+/-! ### take rows ⇔ textbook take constraints -/
+
+/-- a take period of the model as a textbook period -/
+def toPeriod (tk : Take) : Period := ⟨tk.1, tk.2.1, tk.2.2⟩
+
+/-- the relation a row of the given kind imposes between its left-hand side and its right-hand side -/
+def kindRel : RowKind → Rat → Rat → Prop
+  | .U, a, b => a ≤ b
+  | .L, a, b => b ≤ a
+  | _, a, b => a = b
+
+theorem sat_kindRel (r : Row) (y : Vec) : r.Sat y ↔ kindRel r.kind (r.eval y) r.rhs := by
+  unfold Row.Sat kindRel
+  cases r.kind <;> exact Iff.rfl
+
+theorem sum_flatMap_map {α β} (l : List α) (f : α → List β) (h : β → Rat) :
+    ((l.flatMap f).map h).sum = (l.map fun a => ((f a).map h).sum).sum := by
+  induction l with
+  | nil => rfl
+  | cons a l ih => simp only [List.flatMap_cons, List.map_append, List.sum_append, List.map_cons, List.sum_cons, ih]
+
+theorem coveredPos_lt (g : Grid) (s e : Int) (i : Nat) (hi : i ∈ coveredPos g s e) : i < g.T :=
+  List.mem_range.mp (List.mem_filter.mp hi).1
+
+/-- one take period: no row when it covers no step of the window; otherwise a row of the given kind whose
+    left-hand side is the volume `Σ q` over the covered steps and whose right-hand side is the prorated volume -/
+theorem takeRow_spec (kind : RowKind) (u : Nat) (g : Grid) (mapping : List MapRow) (node : Option String)
+    (tk : Take) (y : Vec) (q : Nat → Rat)
+    (hne : ∀ i, i < g.T → rowsAt mapping node (g.idx.getD i 0) ≠ [])
+    (hq : ∀ i, i < g.T → ((rowsAt mapping node (g.idx.getD i 0)).map fun m => m.factor * y m.var).sum = q i) :
+    (coveredPos g tk.1 tk.2.1 = [] → takeRow kind u g mapping node tk = none) ∧
+    (coveredPos g tk.1 tk.2.1 ≠ [] → ∃ r, takeRow kind u g mapping node tk = some r ∧ r.kind = kind ∧
+        r.eval y = ((coveredPos g tk.1 tk.2.1).map q).sum ∧
+        r.rhs = tk.2.2 * ((coveredPos g tk.1 tk.2.1).map (dtOf g)).sum / takeDuration tk.1 tk.2.1 u) := by
+  constructor
+  · intro h; exact takeRow_none_of_uncovered h
+  · intro hcov
+    have hsel : takeSel g mapping node tk.1 tk.2.1 ≠ [] := by
+      intro h0
+      rw [takeSel, List.flatMap_eq_nil_iff] at h0
+      obtain ⟨i, hi⟩ := List.exists_mem_of_ne_nil _ hcov
+      exact hne i (coveredPos_lt g _ _ i hi) (h0 i hi)
+    have hsteps : takeSteps g mapping node tk.1 tk.2.1 = coveredPos g tk.1 tk.2.1 := by
+      unfold takeSteps
+      apply List.filter_eq_self.mpr
+      intro i hi
+      have := hne i (coveredPos_lt g _ _ i hi)
+      cases hr : rowsAt mapping node (g.idx.getD i 0) with
+      | nil => exact absurd hr this
+      | cons a l => rfl
+    have hrow : takeRow kind u g mapping node tk
+        = some { coeffs := (takeSel g mapping node tk.1 tk.2.1).map fun m => (m.var, m.factor),
+                 rhs := tk.2.2 / takeDuration tk.1 tk.2.1 u
+                   * ((takeSteps g mapping node tk.1 tk.2.1).map fun i => g.dt.getD i 0).sum,
+                 kind := kind } := by
+      unfold takeRow
+      simp only []
+      rw [if_neg (by simpa [List.isEmpty_iff] using hsel)]
+    refine ⟨_, hrow, rfl, ?_, ?_⟩
+    · simp only [Row.eval, List.map_map, Function.comp_def]
+      rw [takeSel, sum_flatMap_map]
+      congr 1
+      apply List.map_congr_left
+      intro i hi
+      exact hq i (coveredPos_lt g _ _ i hi)
+    · simp only [hsteps]
+      show _ = tk.2.2 * ((coveredPos g tk.1 tk.2.1).map fun i => g.dt.getD i 0).sum / _
+      grind
+
+/-- **take_rows_spec** (lemma form): the rows `defineRestr` builds hold at `y` iff every period that covers a
+    step of the window restricts the volume `Σ q` over its covered steps by `V·covered time/((e−s)/unit)` -/
+theorem defineRestr_iff (kind : RowKind) (u : Nat) (g : Grid) (mapping : List MapRow) (node : Option String)
+    (takes : List Take) (y : Vec) (q : Nat → Rat)
+    (hne : ∀ i, i < g.T → rowsAt mapping node (g.idx.getD i 0) ≠ [])
+    (hq : ∀ i, i < g.T → ((rowsAt mapping node (g.idx.getD i 0)).map fun m => m.factor * y m.var).sum = q i) :
+    (∀ r ∈ defineRestr kind u g mapping node takes, r.Sat y) ↔
+      ∀ tk ∈ takes, coveredPos g tk.1 tk.2.1 ≠ [] →
+        kindRel kind (((coveredPos g tk.1 tk.2.1).map q).sum)
+          (tk.2.2 * ((coveredPos g tk.1 tk.2.1).map (dtOf g)).sum / takeDuration tk.1 tk.2.1 u) := by
+  constructor
+  · intro h tk htk hcov
+    obtain ⟨r, hr, hk, he, hrhs⟩ := (takeRow_spec kind u g mapping node tk y q hne hq).2 hcov
+    have hmem : r ∈ defineRestr kind u g mapping node takes := by
+      simp only [defineRestr, List.mem_filterMap]; exact ⟨tk, htk, hr⟩
+    have := (sat_kindRel r y).mp (h r hmem)
+    rw [hk, he, hrhs] at this
+    exact this
+  · intro h r hr
+    obtain ⟨tk, htk, hrow⟩ := defineRestr_row hr
+    by_cases hcov : coveredPos g tk.1 tk.2.1 = []
+    · rw [(takeRow_spec kind u g mapping node tk y q hne hq).1 hcov] at hrow; cases hrow
+    · obtain ⟨r', hr', hk, he, hrhs⟩ := (takeRow_spec kind u g mapping node tk y q hne hq).2 hcov
+      rw [hr'] at hrow
+      injection hrow with e
+      subst e
+      rw [sat_kindRel, hk, he, hrhs]
+      exact h tk htk hcov
+
+/-- the textbook take constraints, in terms of the model's take periods -/
+theorem takesOK_iff (g : Grid) (u : Nat) (maxT minT : List Take) (q : Nat → Rat) :
+    takesOK g u (maxT.map toPeriod) (minT.map toPeriod) q ↔
+      (∀ tk ∈ maxT, coveredPos g tk.1 tk.2.1 ≠ [] →
+        kindRel .U (((coveredPos g tk.1 tk.2.1).map q).sum)
+          (tk.2.2 * ((coveredPos g tk.1 tk.2.1).map (dtOf g)).sum / takeDuration tk.1 tk.2.1 u)) ∧
+      (∀ tk ∈ minT, coveredPos g tk.1 tk.2.1 ≠ [] →
+        kindRel .L (((coveredPos g tk.1 tk.2.1).map q).sum)
+          (tk.2.2 * ((coveredPos g tk.1 tk.2.1).map (dtOf g)).sum / takeDuration tk.1 tk.2.1 u)) := by
+  simp only [takesOK, List.forall_mem_map]
+  exact Iff.rfl
+
+/-! ### the mapping rows of one step in a block -/
+
+/-- in a block whose rows sit at pairwise different steps, the rows selected at the step of position `i` are
+    exactly row `i` -/
+theorem rowsAt_block (n : Nat) (mk : Nat → MapRow) (node : Option String) (idx : Nat → Nat)
+    (hinj : ∀ i j, i < n → j < n → idx i = idx j → i = j)
+    (hm : ∀ k, k < n → (mk k).step = idx k ∧ nodeOK node (mk k) = true) (i : Nat) (hi : i < n)
+    (h : MapRow → Rat) :
+    ((rowsAt ((List.range n).map mk) node (idx i)).map h).sum = h (mk i) ∧
+    rowsAt ((List.range n).map mk) node (idx i) ≠ [] := by
+  constructor
+  · unfold rowsAt
+    rw [sum_filter_ite, List.map_map, ← sum_range_pick n i hi (fun k => h (mk k))]
+    congr 1
+    apply List.map_congr_left
+    intro k hk
+    have hk' := List.mem_range.mp hk
+    obtain ⟨h1, h2⟩ := hm k hk'
+    by_cases he : k = i
+    · subst he; simp [h1, h2]
+    · have : ¬ idx k = idx i := fun h' => he (hinj k i hk' hi h')
+      simp [he, h1, this]
+  · apply List.ne_nil_of_mem (a := mk i)
+    unfold rowsAt
+    obtain ⟨h1, h2⟩ := hm i hi
+    exact List.mem_filter.mpr ⟨List.mem_map.mpr ⟨i, List.mem_range.mpr hi, rfl⟩, by simp [h1, h2]⟩
+
+/-- a block none of whose rows is at the node selects nothing -/
+theorem rowsAt_block_off (n : Nat) (mk : Nat → MapRow) (node : Option String) (t : Nat)
+    (hm : ∀ k, k < n → nodeOK node (mk k) = false) : rowsAt ((List.range n).map mk) node t = [] := by
+  unfold rowsAt
+  apply List.filter_eq_nil_iff.mpr
+  intro m hmem
+  obtain ⟨k, hk, rfl⟩ := List.mem_map.mp hmem
+  simp [hm k (List.mem_range.mp hk)]
+
+theorem rowsAt_append (A B : List MapRow) (node : Option String) (t : Nat) :
+    rowsAt (A ++ B) node t = rowsAt A node t ++ rowsAt B node t := by
+  unfold rowsAt; exact List.filter_append ..
+
+/-! ### contracts in general: several commodities, take periods, one or two variables per step -/
+
+/-- `MultiCommodityContract`: the mapping copied once per (node, factor); a plain contract is the case of one
+    node with factor 1 (`multiMap_single`) -/
+def multiMap (nodes : List (String × Rat)) (M : List MapRow) : List MapRow :=
+  nodes.flatMap fun nf => M.map fun m => { m with node := some nf.1, factor := m.factor * nf.2 }
+
+theorem multiMap_single (nd : String) (M : List MapRow) (h : ∀ m ∈ M, m.node = some nd) :
+    multiMap [(nd, 1)] M = M := by
+  simp only [multiMap, List.flatMap_cons, List.flatMap_nil, List.append_nil]
+  conv => rhs; rw [← List.map_id M]
+  apply List.map_congr_left
+  intro m hm
+  have := h m hm
+  cases m
+  simp_all [Rat.mul_one]
+
+/-- what a block of mapping rows puts into ANY node at step `t` -/
+def stepFlow (M : List MapRow) (t : Nat) (y : Vec) : Rat :=
+  ((M.filter fun m => m.kind == .d && m.step == t).map (·.contrib y)).sum
+
+theorem stepFlow_append (A B : List MapRow) (t : Nat) (y : Vec) :
+    stepFlow (A ++ B) t y = stepFlow A t y + stepFlow B t y := by
+  simp [stepFlow, List.filter_append, List.sum_append]
+
+theorem stepFlow_block (n : Nat) (mk : Nat → MapRow) (idx : Nat → Nat) (v : Nat → Rat) (t : Nat) (y : Vec)
+    (hm : ∀ k, k < n → (mk k).kind = .d ∧ (mk k).step = idx k ∧ (mk k).contrib y = v k) :
+    stepFlow ((List.range n).map mk) t y = sumN (fun k => if idx k = t then v k else 0) n := by
+  unfold stepFlow
+  rw [sum_filter_ite, List.map_map, sum_range_eq_sumN]
+  apply sumN_congr
+  intro k hk
+  obtain ⟨h1, h2, h3⟩ := hm k hk
+  simp [h1, h2, h3]
+
+theorem sum_map_mul_const {α} (c : Rat) (f : α → Rat) (l : List α) :
+    (l.map fun a => c * f a).sum = c * (l.map f).sum := by
+  induction l with
+  | nil => simp
+  | cons a l ih => simp only [List.map_cons, List.sum_cons, ih]; grind
+
+/-- flows of a multi-commodity mapping: `factor_k ·` (what the underlying rows move) at node `k` -/
+theorem flow_multiMap (nodes : List (String × Rat)) (M : List MapRow) (node : String) (t : Nat) (y : Vec) :
+    (((multiMap nodes M).filter (isDisp node t)).map (·.contrib y)).sum
+      = ((nodes.filter fun nf => nf.1 == node).map fun nf => nf.2 * stepFlow M t y).sum := by
+  induction nodes with
+  | nil => simp [multiMap]
+  | cons nf rest ih =>
+    have hsplit : multiMap (nf :: rest) M
+        = (M.map fun m => { m with node := some nf.1, factor := m.factor * nf.2 }) ++ multiMap rest M := by
+      simp [multiMap]
+    rw [hsplit, List.filter_append, List.map_append, List.sum_append, ih, List.filter_map, List.map_map]
+    by_cases hn : nf.1 = node
+    · have hp : (isDisp node t ∘ fun m : MapRow => { m with node := some nf.1, factor := m.factor * nf.2 })
+          = fun m => m.kind == .d && m.step == t := by
+        funext m; simp [isDisp, hn]
+      have hc : ((fun m : MapRow => m.contrib y) ∘ fun m : MapRow => { m with node := some nf.1, factor := m.factor * nf.2 })
+          = fun m => nf.2 * m.contrib y := by
+        funext m; simp only [Function.comp, MapRow.contrib]; grind
+      rw [hp, hc, sum_map_mul_const]
+      simp [List.filter_cons, hn, stepFlow]
+    · have hp : (isDisp node t ∘ fun m : MapRow => { m with node := some nf.1, factor := m.factor * nf.2 })
+          = fun _ => false := by
+        funext m; simp [isDisp, hn]
+      rw [hp]
+      have hf : List.filter (fun _ : MapRow => false) M = [] := List.filter_eq_nil_iff.mpr (by simp)
+      rw [hf]
+      simp [List.filter_cons, hn, Rat.zero_add]
+
+theorem dispBlock_range (asset node vn : String) (off : Nat) (g : Grid) :
+    dispBlock asset node vn off g
+      = (List.range g.idx.length).map fun k => dispRow asset node vn (off + k) (g.idx.getD k 0) := by
+  unfold dispBlock
+  exact zipIdx_map_range g.idx _
+
+/-- steps of the window are pairwise different (they are increasing reference indices) -/
+def IdxInj (g : Grid) : Prop := ∀ i j, i < g.T → j < g.T → g.idx.getD i 0 = g.idx.getD j 0 → i = j
+
+theorem inBounds_two_blocks (A1 A2 B1 B2 : List Rat) (n : Nat) (h1 : A1.length = n) (h2 : A2.length = n)
+    (h3 : B1.length = n) (y : Vec) :
+    InBounds (A1 ++ A2) (B1 ++ B2) y ↔
+      ∀ k, k < n → (A1.getD k 0 ≤ y k ∧ y k ≤ B1.getD k 0) ∧
+                   (A2.getD k 0 ≤ y (n + k) ∧ y (n + k) ≤ B2.getD k 0) := by
+  simp only [InBounds, List.length_append, h1, h2]
+  constructor
+  · intro h k hk
+    have a := h k (by omega)
+    have b := h (n + k) (by omega)
+    rw [getD_app_left _ _ _ (by omega), getD_app_left _ _ _ (by omega)] at a
+    rw [getD_app_right _ _ _ (by omega), getD_app_right _ _ _ (by omega), h1, h3, Nat.add_sub_cancel_left] at b
+    exact ⟨a, b⟩
+  · intro h j hj
+    by_cases hjn : j < n
+    · rw [getD_app_left _ _ _ (by omega), getD_app_left _ _ _ (by omega)]
+      exact (h j hjn).1
+    · rw [getD_app_right _ _ _ (by omega), getD_app_right _ _ _ (by omega), h1, h3]
+      have := (h (j - n) (by omega)).2
+      have e : n + (j - n) = j := by omega
+      rw [e] at this
+      exact this
+
+theorem getD_map_fn (f : Rat → Rat) (l : List Rat) (k : Nat) (hk : k < l.length) :
+    (l.map f).getD k 0 = f (l.getD k 0) := by
+  simp [List.getD_eq_getElem?_getD, hk]
+
+theorem onevar_cost_off (cvec df : List Rat) (n off : Nat) (h1 : cvec.length = n) (h2 : df.length = n) (y : Vec)
+    (w : Nat → Rat) (hpt : ∀ j, j < n → cvec.getD j 0 * df.getD j 0 * y (off + j) = w j) :
+    costAt (List.zipWith (· * ·) cvec df) off y = sumN w n := by
+  rw [costAt_eq_sum_range, sum_range_eq_sumN]
+  have hl : (List.zipWith (· * ·) cvec df).length = n := by simp [h1, h2]
+  rw [hl]
+  apply sumN_congr
+  intro j hj
+  rw [getD_zipWith_mul _ _ _ (by omega) (by omega)]
+  exact hpt j hj
+
+/-- cost of the two-variable contract, step by step -/
+theorem contract_cost_two (p : ContractP) (g : Grid) (hg : g.Ok) (d : SCData)
+    (hl : d.price.length = g.T ∧ d.ec.length = g.T ∧ d.minC.length = g.T ∧ d.maxC.length = g.T) (y : Vec) :
+    - costAt (scTwo p g d).c 0 y
+      = sumN (fun j => -((d.price.getD j 0 - d.ec.getD j 0) * dfOf g j * y j
+                         + (d.price.getD j 0 + d.ec.getD j 0) * dfOf g j * y (g.T + j))) g.T := by
+  simp only [scTwo]
+  rw [costAt_append, sumN_neg, sumN_add]
+  have hlen : (List.zipWith (· * ·) (List.zipWith (· - ·) d.price d.ec) g.df).length = g.T := by
+    simp [hl.1, hl.2.1, hg.2.2]
+  rw [hlen,
+    onevar_cost_off _ _ g.T 0 (by simp [hl.1, hl.2.1]) hg.2.2 y
+      (fun j => (d.price.getD j 0 - d.ec.getD j 0) * dfOf g j * y j) (by
+        intro j hj
+        rw [getD_zipWith _ _ _ _ (by omega) (by omega), Nat.zero_add]; rfl),
+    onevar_cost_off _ _ g.T (0 + g.T) (by simp [hl.1, hl.2.1]) hg.2.2 y
+      (fun j => (d.price.getD j 0 + d.ec.getD j 0) * dfOf g j * y (g.T + j)) (by
+        intro j hj
+        rw [getD_zipWith _ _ _ _ (by omega) (by omega), Nat.zero_add]; rfl)]
+
+/-- the textbook contract over per-step lists, several commodities and take periods -/
+def contractSG (lo hi price ec : List Rat) (nodes : List (String × Rat)) (maxT minT : List Take) (u : Nat) :
+    ContractS :=
+  { minRate := fun k => lo.getD k 0, maxRate := fun k => hi.getD k 0, price := fun k => price.getD k 0,
+    extra := fun k => ec.getD k 0, nodes := nodes, maxTake := maxT.map toPeriod, minTake := minT.map toPeriod,
+    unitSec := u }
+
+/-- a simple-contract problem `a` with take rows (built on ITS mapping) and its mapping copied per commodity:
+    what `buildSimpleContract`, `buildContract` and `buildMulti` return -/
+def contractP (a : AssetProblem) (g : Grid) (u : Nat) (nodes : List (String × Rat)) (maxT minT : List Take) :
+    AssetProblem :=
+  { a with rows := a.rows ++ defineRestr .U u g a.mapping none maxT ++ defineRestr .L u g a.mapping none minT,
+           mapping := multiMap nodes a.mapping }
+
+theorem contract_rows_iff (a : AssetProblem) (ha : a.rows = []) (g : Grid) (u : Nat) (nodes : List (String × Rat))
+    (maxT minT : List Take) (y : Vec) (q : Nat → Rat)
+    (hne : ∀ i, i < g.T → rowsAt a.mapping none (g.idx.getD i 0) ≠ [])
+    (hq : ∀ i, i < g.T → ((rowsAt a.mapping none (g.idx.getD i 0)).map fun m => m.factor * y m.var).sum = q i) :
+    (∀ r ∈ (contractP a g u nodes maxT minT).rows, r.Sat y) ↔
+      takesOK g u (maxT.map toPeriod) (minT.map toPeriod) q := by
+  rw [takesOK_iff, ← defineRestr_iff .U u g a.mapping none maxT y q hne hq,
+    ← defineRestr_iff .L u g a.mapping none minT y q hne hq]
+  simp only [contractP, ha, List.nil_append, List.mem_append]
+  constructor
+  · intro h; exact ⟨fun r hr => h r (Or.inl hr), fun r hr => h r (Or.inr hr)⟩
+  · rintro ⟨h1, h2⟩ r (hr | hr)
+    · exact h1 r hr
+    · exact h2 r hr
+
+theorem contract_flow_gen (a : AssetProblem) (g : Grid) (u : Nat) (nodes : List (String × Rat))
+    (maxT minT : List Take) (lo hi price ec : List Rat) (node : String) (t : Nat) (y : Vec) (q : Nat → Rat)
+    (hsf : stepFlow a.mapping t y = atStep g t q) :
+    flowOf (contractP a g u nodes maxT minT) node t y
+      = (contractSG lo hi price ec nodes maxT minT u).flows g q node t := by
+  simp only [flowOf, contractP, ContractS.flows, contractSG]
+  rw [flow_multiMap, hsf]
+
+/-- the mapping rows of one step, one-variable form -/
+theorem takes_one (p : ContractP) (g : Grid) (hg : g.Ok) (hinj : IdxInj g) (d : SCData) (y : Vec) :
+    (∀ i, i < g.T → rowsAt (scOne p g d).mapping none (g.idx.getD i 0) ≠ []) ∧
+    (∀ i, i < g.T →
+      ((rowsAt (scOne p g d).mapping none (g.idx.getD i 0)).map fun m => m.factor * y m.var).sum = y i) := by
+  simp only [scOne, dispBlock_range, hg.1]
+  have hb := fun i hi => rowsAt_block g.T (fun k => dispRow p.name d.node "disp" (0 + k) (g.idx.getD k 0)) none
+    (fun k => g.idx.getD k 0) hinj (fun k _ => ⟨rfl, rfl⟩) i hi (fun m => m.factor * y m.var)
+  constructor
+  · intro i hi; exact (hb i hi).2
+  · intro i hi
+    rw [(hb i hi).1]
+    simp [dispRow, Rat.one_mul]
+
+theorem takes_two (p : ContractP) (g : Grid) (hg : g.Ok) (hinj : IdxInj g) (d : SCData) (y : Vec) :
+    (∀ i, i < g.T → rowsAt (scTwo p g d).mapping none (g.idx.getD i 0) ≠ []) ∧
+    (∀ i, i < g.T →
+      ((rowsAt (scTwo p g d).mapping none (g.idx.getD i 0)).map fun m => m.factor * y m.var).sum
+        = y i + y (g.T + i)) := by
+  simp only [scTwo, dispBlock_range, hg.1, rowsAt_append]
+  have hb1 := fun i hi => rowsAt_block g.T (fun k => dispRow p.name d.node "disp_in" (0 + k) (g.idx.getD k 0)) none
+    (fun k => g.idx.getD k 0) hinj (fun k _ => ⟨rfl, rfl⟩) i hi (fun m => m.factor * y m.var)
+  have hb2 := fun i hi => rowsAt_block g.T (fun k => dispRow p.name d.node "disp_out" (g.T + k) (g.idx.getD k 0)) none
+    (fun k => g.idx.getD k 0) hinj (fun k _ => ⟨rfl, rfl⟩) i hi (fun m => m.factor * y m.var)
+  constructor
+  · intro i hi
+    exact List.append_ne_nil_of_left_ne_nil (hb1 i hi).2 _
+  · intro i hi
+    rw [List.map_append, List.sum_append, (hb1 i hi).1, (hb2 i hi).1]
+    simp [dispRow, Rat.one_mul]
+
+theorem stepFlow_one (p : ContractP) (g : Grid) (hg : g.Ok) (d : SCData) (t : Nat) (y : Vec) :
+    stepFlow (scOne p g d).mapping t y = atStep g t y := by
+  simp only [scOne, dispBlock_range, hg.1]
+  rw [stepFlow_block g.T _ (stepOf g) (fun k => y k) t y
+        (fun k _ => ⟨rfl, rfl, by simp [MapRow.contrib, dispRow]⟩)]
+  rfl
+
+theorem stepFlow_two (p : ContractP) (g : Grid) (hg : g.Ok) (d : SCData) (t : Nat) (y : Vec) (q : Nat → Rat)
+    (hq : ∀ k, k < g.T → q k = y k + y (g.T + k)) :
+    stepFlow (scTwo p g d).mapping t y = atStep g t q := by
+  simp only [scTwo, dispBlock_range, hg.1, stepFlow_append]
+  rw [stepFlow_block g.T _ (stepOf g) (fun k => y k) t y
+        (fun k _ => ⟨rfl, rfl, by simp [MapRow.contrib, dispRow]⟩),
+      stepFlow_block g.T _ (stepOf g) (fun k => y (g.T + k)) t y
+        (fun k _ => ⟨rfl, rfl, by simp [MapRow.contrib, dispRow]⟩),
+      ← sumN_add]
+  unfold atStep
+  apply sumN_congr
+  intro k hk
+  rw [hq k hk]
+  by_cases h : stepOf g k = t <;> simp [h] <;> grind
+
+/-- **contracts, one-variable form, in general** (take periods, several commodities): same attainable pairs -/
+theorem contract_gen_one (p : ContractP) (g : Grid) (hg : g.Ok) (hinj : IdxInj g) (d : SCData) (lo hi : List Rat)
+    (hl : d.price.length = g.T ∧ d.ec.length = g.T ∧ d.minC.length = g.T ∧ d.maxC.length = g.T)
+    (hlol : lo.length = g.T) (hhil : hi.length = g.T)
+    (hlo' : d.minC = List.zipWith (· * ·) lo g.dt) (hhi' : d.maxC = List.zipWith (· * ·) hi g.dt)
+    (hone : oneVariable d.ec d.minC d.maxC = true)
+    (u : Nat) (nodes : List (String × Rat)) (maxT minT : List Take) :
+    RefinesExactly (contractP (scOne p g d) g u nodes maxT minT)
+      (contractSem (contractSG lo hi d.price d.ec nodes maxT minT u) g) := by
+  have hvol : ∀ q : Nat → Rat,
+      (∀ k, k < g.T → lo.getD k 0 * dtOf g k ≤ q k ∧ q k ≤ hi.getD k 0 * dtOf g k) →
+      ∀ k, k < g.T → d.minC.getD k 0 ≤ q k ∧ q k ≤ d.maxC.getD k 0 := by
+    intro q hq k hk
+    rw [hlo', hhi', getD_zipWith_mul _ _ _ (by omega) (by rw [hg.2.1]; exact hk),
+      getD_zipWith_mul _ _ _ (by omega) (by rw [hg.2.1]; exact hk)]
+    exact hq k hk
+  have hfeas : ∀ y : Vec, (contractP (scOne p g d) g u nodes maxT minT).FeasibleRelaxed y ↔
+      (contractSG lo hi d.price d.ec nodes maxT minT u).Feasible g y := by
+    intro y
+    obtain ⟨hne, hq⟩ := takes_one p g hg hinj d y
+    unfold AssetProblem.FeasibleRelaxed ContractS.Feasible
+    rw [contract_rows_iff (scOne p g d) rfl g u nodes maxT minT y y hne hq]
+    have : InBounds (contractP (scOne p g d) g u nodes maxT minT).l (contractP (scOne p g d) g u nodes maxT minT).u y
+        ↔ ∀ k, k < g.T → lo.getD k 0 * dtOf g k ≤ y k ∧ y k ≤ hi.getD k 0 * dtOf g k := by
+      show InBounds d.minC d.maxC y ↔ _
+      rw [hlo', hhi']
+      exact contract_bounds_iff lo hi g hg hlol hhil y
+    rw [this]
+    exact Iff.rfl
+  have hflow : ∀ (y : Vec) n t, flowOf (contractP (scOne p g d) g u nodes maxT minT) n t y
+      = (contractSG lo hi d.price d.ec nodes maxT minT u).flows g y n t :=
+    fun y n t => contract_flow_gen _ g u nodes maxT minT lo hi d.price d.ec n t y y (stepFlow_one p g hg d t y)
+  have hcash : ∀ y : Vec, (contractSG lo hi d.price d.ec nodes maxT minT u).Feasible g y →
+      - costAt (contractP (scOne p g d) g u nodes maxT minT).c 0 y
+        = (contractSG lo hi d.price d.ec nodes maxT minT u).cash g y :=
+    fun y hy => contract_cash_one p g hg d lo hi y hl hone (hvol y hy.1)
+  intro fl c
+  constructor
+  · rintro ⟨q, hq, hfl, rfl⟩
+    exact ⟨q, (hfeas q).mpr hq, fun n t => by rw [hfl n t, hflow], (hcash q hq).symm⟩
+  · rintro ⟨y, hy, hfl, rfl⟩
+    have hs := (hfeas y).mp hy
+    exact ⟨y, hs, fun n t => by rw [hfl n t, hflow], hcash y hs⟩
+
+theorem rmin_mono (a b : Rat) (h : a ≤ b) : rmin 0 a ≤ rmin 0 b := by unfold rmin; split <;> split <;> grind
+theorem rmax_mono (a b : Rat) (h : a ≤ b) : rmax 0 a ≤ rmax 0 b := by unfold rmax; split <;> split <;> grind
+theorem rmin_nonpos (a : Rat) : rmin 0 a ≤ 0 := by unfold rmin; split <;> grind
+theorem rmax_nonneg (a : Rat) : 0 ≤ rmax 0 a := by unfold rmax; split <;> grind
+theorem absR_split (q : Rat) : absR q = rmax 0 q - rmin 0 q := by unfold absR rmax rmin; split <;> grind
+theorem absR_net (a b : Rat) (ha : a ≤ 0) (hb : 0 ≤ b) : absR (a + b) ≤ b - a := by unfold absR; split <;> grind
+
+/-- bounds of the two-variable contract -/
+theorem contract_bounds_two (p : ContractP) (g : Grid) (d : SCData)
+    (hl : d.price.length = g.T ∧ d.ec.length = g.T ∧ d.minC.length = g.T ∧ d.maxC.length = g.T) (y : Vec) :
+    InBounds (scTwo p g d).l (scTwo p g d).u y ↔
+      ∀ k, k < g.T → (rmin 0 (d.minC.getD k 0) ≤ y k ∧ y k ≤ rmin 0 (d.maxC.getD k 0)) ∧
+                     (rmax 0 (d.minC.getD k 0) ≤ y (g.T + k) ∧ y (g.T + k) ≤ rmax 0 (d.maxC.getD k 0)) := by
+  simp only [scTwo]
+  rw [inBounds_two_blocks _ _ _ _ g.T (by simp [hl.2.2.1]) (by simp [hl.2.2.1]) (by simp [hl.2.2.2])]
+  constructor
+  · intro h k hk
+    have := h k hk
+    rw [getD_map_fn _ _ _ (by omega), getD_map_fn _ _ _ (by omega), getD_map_fn _ _ _ (by omega),
+      getD_map_fn _ _ _ (by omega)] at this
+    exact this
+  · intro h k hk
+    rw [getD_map_fn _ _ _ (by omega), getD_map_fn _ _ _ (by omega), getD_map_fn _ _ _ (by omega),
+      getD_map_fn _ _ _ (by omega)]
+    exact h k hk
+
+/-- **contracts, two-variable form, in general** (take periods, several commodities), for a non-negative
+    spread and non-negative discount factors: textbook → model by splitting `q` into its negative and positive
+    part (same flows, same cash); model → textbook by netting `q = x_in + x_out` (same flows, no less cash) -/
+theorem contract_gen_two (p : ContractP) (g : Grid) (hg : g.Ok) (hinj : IdxInj g) (d : SCData) (lo hi : List Rat)
+    (hl : d.price.length = g.T ∧ d.ec.length = g.T ∧ d.minC.length = g.T ∧ d.maxC.length = g.T)
+    (hlo' : d.minC = List.zipWith (· * ·) lo g.dt) (hhi' : d.maxC = List.zipWith (· * ·) hi g.dt)
+    (hec : ∀ k, k < g.T → 0 ≤ d.ec.getD k 0) (hdf : ∀ k, k < g.T → 0 ≤ dfOf g k)
+    (u : Nat) (nodes : List (String × Rat)) (maxT minT : List Take) :
+    Refines (contractP (scTwo p g d) g u nodes maxT minT)
+      (contractSem (contractSG lo hi d.price d.ec nodes maxT minT u) g) := by
+  have hvol : ∀ k, k < g.T → d.minC.getD k 0 = lo.getD k 0 * dtOf g k ∧ d.maxC.getD k 0 = hi.getD k 0 * dtOf g k := by
+    intro k hk
+    have h1 : k < lo.length := by
+      have := hl.2.2.1; rw [hlo'] at this; simp at this; omega
+    have h2 : k < hi.length := by
+      have := hl.2.2.2; rw [hhi'] at this; simp at this; omega
+    rw [hlo', hhi', getD_zipWith_mul _ _ _ h1 (by rw [hg.2.1]; exact hk),
+      getD_zipWith_mul _ _ _ h2 (by rw [hg.2.1]; exact hk)]
+    exact ⟨rfl, rfl⟩
+  -- what related points share: take rows and flows
+  have hshare : ∀ (y : Vec) (q : Nat → Rat), (∀ k, k < g.T → q k = y k + y (g.T + k)) →
+      ((∀ r ∈ (contractP (scTwo p g d) g u nodes maxT minT).rows, r.Sat y) ↔
+        takesOK g u (maxT.map toPeriod) (minT.map toPeriod) q) ∧
+      (∀ n t, flowOf (contractP (scTwo p g d) g u nodes maxT minT) n t y
+        = (contractSG lo hi d.price d.ec nodes maxT minT u).flows g q n t) := by
+    intro y q hq
+    obtain ⟨hne, hs⟩ := takes_two p g hg hinj d y
+    exact ⟨contract_rows_iff (scTwo p g d) rfl g u nodes maxT minT y q hne
+        (fun i hi => by rw [hs i hi, hq i hi]),
+      fun n t => contract_flow_gen _ g u nodes maxT minT lo hi d.price d.ec n t y q (stepFlow_two p g hg d t y q hq)⟩
+  constructor
+  · -- textbook → model
+    rintro fl c ⟨q, ⟨hb, htk⟩, hfl, rfl⟩
+    let y : Vec := fun j => if j < g.T then rmin 0 (q j) else rmax 0 (q (j - g.T))
+    have hy1 : ∀ k, k < g.T → y k = rmin 0 (q k) := fun k hk => by simp [y, hk]
+    have hy2 : ∀ k, y (g.T + k) = rmax 0 (q k) := by
+      intro k
+      show (if g.T + k < g.T then rmin 0 (q (g.T + k)) else rmax 0 (q (g.T + k - g.T))) = _
+      rw [if_neg (by omega), Nat.add_sub_cancel_left]
+    have hq : ∀ k, k < g.T → q k = y k + y (g.T + k) := by
+      intro k hk; rw [hy1 k hk, hy2 k, rmin_add_rmax]
+    obtain ⟨hrows, hflow⟩ := hshare y q hq
+    refine ⟨_, Rat.le_refl, y, ⟨?_, hrows.mpr htk⟩, fun n t => by rw [hfl n t, hflow], ?_⟩
+    · show InBounds (scTwo p g d).l (scTwo p g d).u y
+      rw [contract_bounds_two p g d hl]
+      intro k hk
+      obtain ⟨b1, b2⟩ := hb k hk
+      simp only [contractSG] at b1 b2
+      rw [← (hvol k hk).1] at b1
+      rw [← (hvol k hk).2] at b2
+      rw [hy1 k hk, hy2 k]
+      exact ⟨⟨rmin_mono _ _ b1, rmin_mono _ _ b2⟩, ⟨rmax_mono _ _ b1, rmax_mono _ _ b2⟩⟩
+    · show (contractSG lo hi d.price d.ec nodes maxT minT u).cash g q
+          = - costAt (scTwo p g d).c 0 y
+      rw [contract_cost_two p g hg d hl y]
+      simp only [ContractS.cash, contractSG]
+      apply sumN_congr
+      intro j hj
+      rw [hy1 j hj, hy2 j, absR_split]
+      have := rmin_add_rmax (q j)
+      grind
+  · -- model → textbook
+    rintro fl c ⟨y, ⟨hbd, hr⟩, hfl, rfl⟩
+    let q : Nat → Rat := fun k => y k + y (g.T + k)
+    have hq : ∀ k, k < g.T → q k = y k + y (g.T + k) := fun _ _ => rfl
+    obtain ⟨hrows, hflow⟩ := hshare y q hq
+    have hb := (contract_bounds_two p g d hl y).mp hbd
+    refine ⟨(contractSG lo hi d.price d.ec nodes maxT minT u).cash g q, ?_, q, ⟨?_, hrows.mp hr⟩,
+      fun n t => by rw [hfl n t, hflow], rfl⟩
+    · show - costAt (scTwo p g d).c 0 y ≤ _
+      rw [contract_cost_two p g hg d hl y]
+      simp only [ContractS.cash, contractSG]
+      apply sumN_le
+      intro j hj
+      obtain ⟨⟨_, b2⟩, ⟨b3, _⟩⟩ := hb j hj
+      have h1 : y j ≤ 0 := Rat.le_trans b2 (rmin_nonpos _)
+      have h2 : 0 ≤ y (g.T + j) := Rat.le_trans (rmax_nonneg _) b3
+      have hw : 0 ≤ dfOf g j * d.ec.getD j 0 := Rat.mul_nonneg (hdf j hj) (hec j hj)
+      have := Rat.mul_le_mul_of_nonneg_left (absR_net _ _ h1 h2) hw
+      show _ ≤ -(dfOf g j * (d.price.getD j 0 * (y j + y (g.T + j)) + d.ec.getD j 0 * absR (y j + y (g.T + j))))
+      grind
+    · intro k hk
+      obtain ⟨⟨b1, b2⟩, ⟨b3, b4⟩⟩ := hb k hk
+      have e1 := rmin_add_rmax (d.minC.getD k 0)
+      have e2 := rmin_add_rmax (d.maxC.getD k 0)
+      simp only [contractSG]
+      rw [← (hvol k hk).1, ← (hvol k hk).2]
+      show d.minC.getD k 0 ≤ y k + y (g.T + k) ∧ y k + y (g.T + k) ≤ d.maxC.getD k 0
+      grind
+
+/-! ### extended transport: take rows at the first node -/
+
+theorem transportBlock_range (asset node : String) (f : Rat) (g : Grid) :
+    transportBlock asset node f g
+      = (List.range g.idx.length).map fun k =>
+          ({ var := k, asset := asset, node := some node, kind := .d, step := g.idx.getD k 0, factor := f,
+             isBool := false, varName := "disp" } : MapRow) := by
+  unfold transportBlock
+  exact zipIdx_map_range g.idx _
+
+/-- the mapping rows of one step at the first node of a transport: the row with factor −1 -/
+theorem takes_transport (p : TransportP) (g : Grid) (hg : g.Ok) (hinj : IdxInj g) (n0 n1 : String) (cts : List Rat)
+    (h01 : n0 ≠ n1) (y : Vec) :
+    (∀ i, i < g.T → rowsAt (trProblem p g n0 n1 cts).mapping (some n0) (g.idx.getD i 0) ≠ []) ∧
+    (∀ i, i < g.T →
+      ((rowsAt (trProblem p g n0 n1 cts).mapping (some n0) (g.idx.getD i 0)).map fun m => m.factor * y m.var).sum
+        = -(y i)) := by
+  simp only [trProblem, transportBlock_range, hg.1, rowsAt_append]
+  have hoff : ∀ t, rowsAt ((List.range g.T).map fun k =>
+      ({ var := k, asset := p.name, node := some n1, kind := .d, step := g.idx.getD k 0, factor := p.efficiency,
+         isBool := false, varName := "disp" } : MapRow)) (some n0) t = [] := by
+    intro t
+    apply rowsAt_block_off
+    intro k _
+    have : ¬ (n1 = n0) := fun e => h01 e.symm
+    simp [nodeOK, this]
+  have hb := fun i hi => rowsAt_block g.T (fun k =>
+      ({ var := k, asset := p.name, node := some n0, kind := .d, step := g.idx.getD k 0, factor := -1,
+         isBool := false, varName := "disp" } : MapRow)) (some n0)
+    (fun k => g.idx.getD k 0) hinj (fun k _ => ⟨rfl, by simp [nodeOK]⟩) i hi (fun m => m.factor * y m.var)
+  constructor
+  · intro i hi
+    exact List.append_ne_nil_of_left_ne_nil (hb i hi).2 _
+  · intro i hi
+    rw [hoff, List.append_nil, (hb i hi).1]
+    grind
+
+/-- take rows of the extended transport ⇔ textbook take constraints on the volume leaving the first node -/
+theorem ext_rows_iff (p : TransportP) (g : Grid) (hg : g.Ok) (hinj : IdxInj g) (n0 n1 : String) (cts : List Rat)
+    (h01 : n0 ≠ n1) (u : Nat) (maxT minT : List Take) (y : Vec) :
+    (∀ r ∈ defineRestr .L u g (trProblem p g n0 n1 cts).mapping (some n0) (maxT.map negTake)
+          ++ defineRestr .U u g (trProblem p g n0 n1 cts).mapping (some n0) (minT.map negTake), r.Sat y) ↔
+      takesOK g u (maxT.map toPeriod) (minT.map toPeriod) y := by
+  obtain ⟨hne, hq⟩ := takes_transport p g hg hinj n0 n1 cts h01 y
+  rw [takesOK_iff]
+  have hsum : ∀ l : List Nat, (l.map fun i => -(y i)).sum = -(l.map y).sum := fun l => sum_map_neg y l
+  simp only [List.mem_append]
+  constructor
+  · intro h
+    have hL := (defineRestr_iff .L u g _ (some n0) (maxT.map negTake) y (fun i => -(y i)) hne hq).mp
+      (fun r hr => h r (Or.inl hr))
+    have hU := (defineRestr_iff .U u g _ (some n0) (minT.map negTake) y (fun i => -(y i)) hne hq).mp
+      (fun r hr => h r (Or.inr hr))
+    constructor
+    · intro tk htk hcov
+      have := hL (negTake tk) (List.mem_map.mpr ⟨tk, htk, rfl⟩) hcov
+      simp only [negTake, kindRel, hsum] at this ⊢
+      grind
+    · intro tk htk hcov
+      have := hU (negTake tk) (List.mem_map.mpr ⟨tk, htk, rfl⟩) hcov
+      simp only [negTake, kindRel, hsum] at this ⊢
+      grind
+  · rintro ⟨h1, h2⟩ r (hr | hr)
+    · refine (defineRestr_iff .L u g _ (some n0) (maxT.map negTake) y (fun i => -(y i)) hne hq).mpr ?_ r hr
+      intro tk' htk' hcov
+      obtain ⟨tk, htk, rfl⟩ := List.mem_map.mp htk'
+      have := h1 tk htk hcov
+      simp only [negTake, kindRel, hsum] at this ⊢
+      grind
+    · refine (defineRestr_iff .U u g _ (some n0) (minT.map negTake) y (fun i => -(y i)) hne hq).mpr ?_ r hr
+      intro tk' htk' hcov
+      obtain ⟨tk, htk, rfl⟩ := List.mem_map.mp htk'
+      have := h2 tk htk hcov
+      simp only [negTake, kindRel, hsum] at this ⊢
+      grind
+
+/-! ### the empty window -/
+
+/-- a problem without variables, rows and mapping rows attains exactly (no flow, no cash) -/
+theorem empty_attain (P : AssetProblem) (h : P.c = [] ∧ P.l = [] ∧ P.rows = [] ∧ P.mapping = [])
+    (fl : Flows) (c : Rat) : (attainEAO P).Attain fl c ↔ (∀ n t, fl n t = 0) ∧ c = 0 := by
+  obtain ⟨hc, hl, hr, hm⟩ := h
+  constructor
+  · rintro ⟨y, _, hfl, rfl⟩
+    refine ⟨fun n t => by rw [hfl n t]; simp [flowOf, hm], ?_⟩
+    rw [hc]; simp [costAt]
+  · rintro ⟨hfl, rfl⟩
+    refine ⟨fun _ => 0, ⟨?_, ?_⟩, fun n t => by rw [hfl n t]; simp [flowOf, hm], ?_⟩
+    · intro j hj; rw [hl] at hj; simp at hj
+    · intro r hr'; rw [hr] at hr'; simp at hr'
+    · rw [hc]; simp [costAt]
+
+theorem atStep_empty (g : Grid) (hT : g.T = 0) (t : Nat) (f : Nat → Rat) : atStep g t f = 0 := by
+  unfold atStep; rw [hT]; exact sumN_zero _
+
+theorem covered_empty (p : Period) (g : Grid) (hT : g.T = 0) : p.covered g = [] := by
+  unfold Period.covered; rw [hT]; rfl
+
+theorem takesOK_empty (g : Grid) (hT : g.T = 0) (u : Nat) (maxT minT : List Period) (q : Nat → Rat) :
+    takesOK g u maxT minT q :=
+  ⟨fun p _ h => absurd (covered_empty p g hT) h, fun p _ h => absurd (covered_empty p g hT) h⟩
+
+theorem contractSem_empty (c : ContractS) (g : Grid) (hT : g.T = 0) (fl : Flows) (v : Rat) :
+    (contractSem c g).Attain fl v ↔ (∀ n t, fl n t = 0) ∧ v = 0 := by
+  have hflow : ∀ q n t, c.flows g q n t = 0 := by
+    intro q n t
+    simp only [ContractS.flows, atStep_empty g hT]
+    have : ((c.nodes.filter fun nf => nf.1 == n).map fun nf => nf.2 * (0 : Rat))
+        = (c.nodes.filter fun nf => nf.1 == n).map fun _ => (0 : Rat) := by
+      apply List.map_congr_left; intro a _; grind
+    rw [this, sum_map_zero_rat]
+  have hcash : ∀ q, c.cash g q = 0 := by intro q; unfold ContractS.cash; rw [hT]; exact sumN_zero _
+  constructor
+  · rintro ⟨q, _, hfl, rfl⟩
+    exact ⟨fun n t => by rw [hfl n t, hflow], hcash q⟩
+  · rintro ⟨hfl, rfl⟩
+    exact ⟨fun _ => 0, ⟨fun k hk => by omega, takesOK_empty g hT _ _ _ _⟩,
+      fun n t => by rw [hfl n t, hflow], (hcash _).symm⟩
+
+theorem transportSem_empty (r : TransportS) (g : Grid) (hT : g.T = 0) (fl : Flows) (v : Rat) :
+    (transportSem r g).Attain fl v ↔ (∀ n t, fl n t = 0) ∧ v = 0 := by
+  have hflow : ∀ f n t, r.flows g f n t = 0 := by
+    intro f n t
+    simp only [TransportS.flows, atStep_empty g hT]
+    split <;> split <;> grind
+  have hcash : ∀ f, r.cash g f = 0 := by intro f; unfold TransportS.cash; rw [hT]; exact sumN_zero _
+  constructor
+  · rintro ⟨f, _, hfl, rfl⟩
+    exact ⟨fun n t => by rw [hfl n t, hflow], hcash f⟩
+  · rintro ⟨hfl, rfl⟩
+    exact ⟨fun _ => 0, ⟨fun k hk => by omega, takesOK_empty g hT _ _ _ _⟩,
+      fun n t => by rw [hfl n t, hflow], (hcash _).symm⟩
+
+theorem storageSem_empty (s : StorageS) (g : Grid) (hT : g.T = 0) (fl : Flows) (v : Rat) :
+    (storageSem s g).Attain fl v ↔ (∀ n t, fl n t = 0) ∧ v = 0 := by
+  have hflow : ∀ d n t, s.flows g d n t = 0 := by
+    intro d n t
+    simp only [StorageS.flows, atStep_empty g hT]
+    split <;> split <;> grind
+  have hcash : ∀ d, s.cash g d + s.holdingConstant g = 0 := by
+    intro d
+    unfold StorageS.cash StorageS.holdingConstant
+    rw [hT, sumN_zero, sumN_zero]; grind
+  constructor
+  · rintro ⟨d, _, hfl, rfl⟩
+    exact ⟨fun n t => by rw [hfl n t, hflow], hcash d⟩
+  · rintro ⟨hfl, rfl⟩
+    exact ⟨⟨fun _ => 0, fun _ => 0⟩, ⟨fun k hk => by omega, fun h => by omega⟩,
+      fun n t => by rw [hfl n t, hflow], (hcash _).symm⟩
+
+/-! ### what the three contract builders return, in terms of `contractP` -/
+
+theorem sc_nodes (p : ContractP) (g : Grid) (d : SCData) :
+    (∀ m ∈ (scOne p g d).mapping, m.node = some d.node) ∧ (∀ m ∈ (scTwo p g d).mapping, m.node = some d.node) := by
+  constructor
+  · intro m hm
+    obtain ⟨i, hi, rfl⟩ := mem_dispBlock hm
+    rfl
+  · intro m hm
+    simp only [scTwo, List.mem_append] at hm
+    rcases hm with hm | hm <;> (obtain ⟨i, hi, rfl⟩ := mem_dispBlock hm; rfl)
+
+theorem contractP_plain (a : AssetProblem) (nd : String) (ha : ∀ m ∈ a.mapping, m.node = some nd) (g : Grid)
+    (u : Nat) (maxT minT : List Take) :
+    contractP a g u [(nd, 1)] maxT minT
+      = { a with rows := a.rows ++ defineRestr .U u g a.mapping none maxT ++ defineRestr .L u g a.mapping none minT } := by
+  simp only [contractP, multiMap_single nd a.mapping ha]
+
+theorem contractP_simple (a : AssetProblem) (nd : String) (ha : ∀ m ∈ a.mapping, m.node = some nd) (g : Grid)
+    (u : Nat) : contractP a g u [(nd, 1)] [] [] = a := by
+  rw [contractP_plain a nd ha]
+  simp [defineRestr]
+
+theorem contractSG_simple (lo hi price ec : List Rat) (nd : String) :
+    contractSG lo hi price ec [(nd, 1)] [] [] 1 = contractS1 lo hi price ec nd := rfl
+
 end EAO.Textbook
